@@ -724,7 +724,7 @@ package route
 //@ spec fun depsReady() bool = counters.histogram != nil && counters.rxCounter != nil && counters.txCounter != nil && transport.cfg != nil
 //@
 //@ func (*Route).addTarget
-//@   props C02 C05
+//@   props C02 C05 C13
 //@   requires r != nil && targetURL != nil && depsReady() && routeOK(r)
 //@   assigns r.Targets, r.Targets[*], r.wTargets, Target.Weight, Target.accessRules, elems(interface{}), mapsOf(map[string][]interface{}), ioWrites, lastWrite
 //@   ensures nopanic
@@ -743,6 +743,8 @@ package route
 //@   at "r.weighTargets()" assert forall i int :: 0 <= i && i < len(r.Targets) - 1 ==> r.Targets[i] != t
 //@   at "r.weighTargets()" assert routeOK(r)
 //@   at "r.weighTargets()" assert forall a *Route :: a != r ==> a.Targets == old(a.Targets)
+//@   // a redirect status is only ever a 3xx status: anything else in the redirect= option leaves the target a plain proxy target
+//@   ensures len(r.Targets) == len(old(r.Targets)) + 1 ==> r.Targets[len(r.Targets)-1].RedirectCode == 0 || (300 <= r.Targets[len(r.Targets)-1].RedirectCode && r.Targets[len(r.Targets)-1].RedirectCode <= 399)
 //@   loop 1 invariant forall j int :: 0 <= j && j <= rangeindex ==> !(r.Targets[j].Service == service && urlString(r.Targets[j].URL) == urlString(targetURL) && r.Targets[j].FixedWeight == fixedWeight && deepEqual(r.Targets[j].Tags, tags))
 //@
 //@ // the predicate handed to filter is called on targets of the route; it must not write anything
